@@ -8,17 +8,32 @@ type Pool struct {
 }
 
 //go:norace
+func poolOf(p *Pool) *poolEntry {
+	for i := 0; i < S.npools; i++ {
+		if S.pools[i].p == p {
+			return &S.pools[i]
+		}
+	}
+	if S.npools >= maxPools {
+		return nil
+	}
+	S.pools[S.npools].p = p
+	S.npools++
+	return &S.pools[S.npools-1]
+}
+
+//go:norace
 func (p *Pool) Get() any {
 	if S != nil && cur() != nil {
-		l := S.pools[p]
-		if n := len(l); n > 0 && Choose(2) == 0 {
+		if e := poolOf(p); e != nil && e.n > 0 && Choose(2) == 0 {
 			i := 0
-			if n > 1 {
-				i = Choose(n)
+			if e.n > 1 {
+				i = Choose(e.n)
 			}
-			x := l[i]
-			l[i] = l[n-1]
-			S.pools[p] = l[:n-1]
+			x := e.items[i]
+			e.items[i] = e.items[e.n-1]
+			e.items[e.n-1] = nil
+			e.n--
 			return x
 		}
 	}
@@ -31,8 +46,9 @@ func (p *Pool) Get() any {
 //go:norace
 func (p *Pool) Put(x any) {
 	if S != nil && cur() != nil {
-		if len(S.pools[p]) < 8 {
-			S.pools[p] = append(S.pools[p], x)
+		if e := poolOf(p); e != nil && e.n < len(e.items) {
+			e.items[e.n] = x
+			e.n++
 		}
 	}
 }
